@@ -99,13 +99,13 @@ async def one(cfg):
     return ev, raised
 
 
-async def late_registration():
+async def late_registration(validate=True):
     from taskiq import InMemoryBroker, TaskiqDepends, Context
     from taskiq.receiver import Receiver
     from taskiq.message import TaskiqMessage
     from taskiq.abc.broker import AsyncBroker
     AsyncBroker.global_task_registry = {}
-    b = InMemoryBroker(); r = Receiver(b, max_async_tasks=2, run_startup=False); seen = []
+    b = InMemoryBroker(); r = Receiver(b, max_async_tasks=2, run_startup=False, validate_params=validate); seen = []
     async def t(x: int, ctx: Context = TaskiqDepends()): seen.append((x, ctx.message.task_id, True))
     b.register_task(t, task_name='late')
     for i in range(2):
@@ -280,6 +280,10 @@ def run(sc):
     if got != [(41, 'id-0', True), (41, 'id-1', True)]:
         fails.append({'key': 'late-registration', 'config': {'registered': 'after Receiver(...)', 'sent_args': ['41'], 'annotation': 'int'},
                       'failed_clauses': [f"C08: a task `def t(x: int, ctx: Context)` registered after the receiver was built was sent the argument '41' twice; (received x, Context.task_id, dependency resolved) per delivery = {got}, expected the converted 41 and its own Context both times"], 'trace': [str(got)]})
+    got = asyncio.run(late_registration(validate=False)); n += 1
+    if got != [('41', 'id-0', True), ('41', 'id-1', True)]:
+        fails.append({'key': 'validate_params=False', 'config': {'validate_params': False, 'sent_args': ['41'], 'annotation': 'int'},
+                      'failed_clauses': [f"C08: with parameter parsing disabled (Receiver(validate_params=False)) the argument '41' must arrive as sent; per delivery the task received {got}"], 'trace': [str(got)]})
     for shape in ('uncached', 'cached', 'async_uncached', 'generator_uncached', 'nested_uncached', 'override', 'ctx_only_nested'):
         bad, seen = asyncio.run(isolation(shape)); n += 1
         if bad or len(seen) != 2: fails.append({'key': 'isolation:' + shape, 'config': {'overlapping_messages': ['A', 'B'], 'dependency': shape},
